@@ -15,7 +15,11 @@ schema accepts by lenient conversion ("vl").  The abstract unserialized value is
 independent copy of the scope (reflect.DeepEqual with what its Unserialize returns).  Its OUTPUT scopes are
 map-based too (int, list of string, pattern, struct-mapped sub-object): behaviour "okr" returns conforming data
 whose in-memory form differs from its serialized form, and the data CallStep returns must equal what an
-independent copy of the output scope's Serialize gives for the handler's value.  The orchestrator hands
+independent copy of the output scope's Serialize gives for the handler's value.  The map-based scopes also have
+quantities with units (int and float): rejected quantities whose schema error has the units parser's
+BadArgumentError among its causes must still fail as InvalidInputError (classification: the returned error's own
+type, else errors.As with InvalidInputError / InvalidOutputError before BadArgumentError).  A third, all-optional
+map-based output ("info") serves the non-conforming behaviour "declared ID, nil data".  The orchestrator hands
 the concrete forms of each raw-input class and handler behaviour out round-robin, so every form in the harness's
 tables is exercised.
 """
